@@ -153,6 +153,14 @@ type workerOut struct {
 	Panic    string           `json:"panic,omitempty"`
 }
 
+// GoawkBin is the plain goawk binary built from the current tree for this check invocation.
+func GoawkBin() string {
+	if p := os.Getenv("VERIF_GOAWK"); p != "" {
+		return p
+	}
+	return filepath.Join(VerifDir, "work", "bin", "goawk")
+}
+
 func newCtx(id, tier string, shard, n int) *Ctx {
 	return &Ctx{ID: id, Tier: tier, Shard: shard, NShards: n, counters: map[string]int64{}, outcomes: map[string]struct{}{},
 		notes: map[string]any{}, violCount: map[string]int{}, start: time.Now()}
@@ -315,7 +323,7 @@ func loadKnown(id string) *known {
 
 func drive(ch *Check, tier string, workers int, record bool, seed int64) int {
 	start := time.Now()
-	workDir := filepath.Join(VerifDir, "work", "run-"+ch.ID)
+	workDir := filepath.Join(VerifDir, "work", fmt.Sprintf("run-%s-%d", ch.ID, os.Getpid()))
 	os.RemoveAll(workDir)
 	os.MkdirAll(workDir, 0o755)
 	self, _ := os.Executable()
